@@ -408,6 +408,8 @@ def run(ctx):
     unknown_kept(ctx)
     order_independence(ctx)
     id3file_tie.run(ctx)
+    import flacblocks_tie
+    flacblocks_tie.run(ctx)
     dsf_tie.run(ctx)
     asf_tie.run(ctx)
     ogginject_tie.run(ctx)
